@@ -36,10 +36,98 @@ func keySetString(ks []RuleKey) string {
 	return fmt.Sprint(parts)
 }
 
+// perioSeen: when a registered URR was last queried by a tick (or registered).
+type perioSeen struct {
+	p  time.Duration
+	at time.Duration
+}
+
+// checkPerioGaps: "registered for periodic querying with its measurement period" — a URR
+// that stays registered is queried every period: never more than one period (plus slack)
+// after it was registered or last queried. Judged only where nothing legitimately delays
+// or drops ticks (no injected data-plane latency or fault, no socket error), and never
+// for the URRs of a session the step itself changed (its groups may have been re-created,
+// which restarts their phase).
+func (s *Sim) checkPerioGaps(ctx *StepCtx) {
+	m := s.model
+	now := s.since()
+	cur := map[RuleKey]time.Duration{}
+	for p, set := range m.registered() {
+		for k := range set {
+			cur[k] = p
+		}
+	}
+	if m.perioSeen == nil {
+		m.perioSeen = map[RuleKey]perioSeen{}
+	}
+	for k, v := range m.perioSeen {
+		if cur[k] != v.p {
+			delete(m.perioSeen, k)
+		}
+	}
+	clean := s.cfg.KernLatency == 0 && !m.perioTaint && s.firedM["dp.untagged"] == 0 && !s.free && !s.stopped1 && !s.tearing
+	for _, r := range ctx.Reqs {
+		if r.Fault {
+			clean = false
+		}
+	}
+	for _, o := range ctx.N4 {
+		if o.Err {
+			clean = false
+		}
+	}
+	if !clean {
+		for k, p := range cur {
+			m.perioSeen[k] = perioSeen{p, now}
+		}
+		return
+	}
+	const slack = 20 * time.Millisecond
+	touched := map[uint64]bool{}
+	if ctx.Kind != "adv" {
+		if ctx.Target != nil {
+			touched[ctx.Target.UP] = true
+		}
+		for _, e := range ctx.Ended {
+			touched[e.UP] = true
+		}
+	}
+	for _, r := range ctx.Reqs {
+		if r.Conn != "ps" || r.Op != "multi" {
+			continue
+		}
+		for _, k := range r.Multi {
+			v, ok := m.perioSeen[k]
+			if !ok {
+				continue
+			}
+			if gap := r.At - v.at; gap > v.p+slack && !touched[k.SEID] && !m.delFaulted[k] {
+				s.violate("C15", "tick.period", "tick:late",
+					"URR %#x:%d, registered with period %v all along, was queried at %v, %v after it was registered or last queried (%v)", k.SEID, k.ID, v.p, r.At, gap, v.at)
+				return
+			}
+			m.perioSeen[k] = perioSeen{v.p, r.At}
+		}
+	}
+	for k, p := range cur {
+		v, ok := m.perioSeen[k]
+		if !ok || touched[k.SEID] {
+			m.perioSeen[k] = perioSeen{p, now}
+			continue
+		}
+		if ctx.Kind == "adv" && now-v.at > p+slack && !m.delFaulted[k] {
+			s.violate("C15", "tick.period", "tick:starved",
+				"URR %#x:%d has been registered with period %v since before %v and was not queried for %v", k.SEID, k.ID, p, v.at, now-v.at)
+			return
+		}
+	}
+}
+
 func (s *Sim) checkPerio(ctx *StepCtx) {
 	if !s.oracleOn("C15") {
 		return
 	}
+	s.checkPerioGaps(ctx)
 	m := s.model
 	var reqs []*NLReq
 	for _, r := range ctx.Reqs {
